@@ -1062,6 +1062,12 @@ func suiteFields(o *Out, thorough bool, seed int64) {
 			}
 		})
 		emit("$Sum = a, $sum = b, $Sum + $sum")
+		// callee positions that are not names; keyword literals; the local named `$` itself
+		for _, t := range []string{"f(a)(b)", "f(a)(b)(c)", "f(a)()", "g.h(a.b)(c)", "f($x)(1)", "f(a.b)(a)", "(a)(b)", "(x ? f : g)(a)", "f(x).g(y)", "(a).b(c)", "this.f(a)", "'s'.k(a)", "[a].k(b)", "a.b(c).d(e)",
+			"false", "x == false", "false ? a : b", "f(false)", "[true, false, null, ctx, this]", "typeof false", "!false", "$a = false", "a.false", "false.a", "ctx.a", "true.a", "null.a", "a.true.b", "ctx", "f(ctx, true)",
+			"$", "$ + a", "$.a", "$$", "$ = 1, $", "f($)", "$.a.b + $1", "_$", "$.$", "$a.$", "a.$.b", "a!.b", "a!.b.c", "a.b!.c + a.b", "typeof a.b", "-a.b.c", "a.b = 1", "$a.b = 1", "[a.b, a.b.c, a]", "a ? a.b : a.b.c"} {
+			emit(t)
+		}
 	}
 	r := newRand(seed, "fields")
 	g := &gen{r: r, idents: []string{"a", "b", "c", "a.b", "a.b.c", "b.x", "A", "a.B", "B.x", "ab"}, funcs: []string{"f", "g.h", "a.f", "len"}, lits: []string{"1", "'s'", "null", "$c", "$d", "$C", "[a, b.x]", "(a).b", "f(a).b"}}
@@ -1377,6 +1383,10 @@ func suiteNames(o *Out, thorough bool, seed int64) {
 // ---------- C12 ----------
 
 func suiteLiterals(o *Out, thorough bool, seed int64) {
+	// several literals that take the scanner's slow path (separators) in one formula
+	for _, t := range []string{"1_0 + 2_0", "[1_1, 2_2, 3_3]", "1_0e1_0 * 2_0", "f(1_0, 0.5_5)", "1_0 + 20 + 3_0", "1_0.2_5 + 1_0.2_5", "[1_000, 1000, 1_0_0_0]", "1_0 == 10 && 2_0 == 20", "0x1F + 1_0 + 0x0_F", "1_0, 2_0, 3_0", "-1_0 - -2_0", ".5_5 + 5_5.", "1e1_0 + 1_0e1"} {
+		emitEval(o, t, 0, "1:0:0:2:0:a,a:Ii:1", wmap("f", "H1"), true)
+	}
 	alpha := []string{"0", "1", "9", ".", "e", "E", "+", "-", "_"}
 	k := 5
 	if thorough {
@@ -1588,6 +1598,13 @@ func suiteStrings(o *Out, thorough bool, seed int64) {
 		if obs != "parse-error" {
 			o.Fail(fmt.Sprintf("EV\t%s\t0\t-\t-", hx([]byte(s))), "an open string literal was accepted: "+s)
 		}
+	}
+	// escape shapes the reference escaper never writes: a backslash in front of a raw line break, surrogate code points,
+	// hex escapes with fewer digits than their form asks for, several escaped literals in one formula
+	for _, t := range []string{"'a\\\r\nb'", "'a\\\rx\nb'", "'a\\\rb'", "'a\\\r\r\nb'", "'a\\\n\rb'", "\"\\\r\n\"", "'a\\\u2028b'", "'a\\\u0085b'", "'a\\\u2029b'", "'a\\\nb'",
+		"'\\ud83d\\ude00'", "'\\ud800'", "'\\udfff'", "\"\\uD83Dx\"", "'\\ud7ff\\ue000'", "'\\x4'", "'\\x4g'", "'\\u12'", "'\\u004'", "'\\u12 '", "\"\\xa\"", "'\\xg'", "'\\u'", "'\\u{41}'",
+		"'\\x41' + '\\x42'", "['a\\n', \"b\\t\", 'c']", "'\\u0041' + \"\\u0042\" + '\\x43'", "f('a\\tb', 'c\\nd')", "'\\\\' + '\\''", "['\\x41', '\\x41']", "'a' + 'b\\x21' + 'c'"} {
+		emitEval(o, t, 0, "-", "-", true)
 	}
 	// histories: rejected literals (open after an escape, bad escapes, raw line breaks) interleaved with well-formed
 	// ones; the value of a literal may not depend on what was scanned before it
